@@ -139,7 +139,7 @@ def _compare(ctx, op, cell, backend, got_kind, ref, a, b, s_in, tol, q):
                      op=op.name, variant=variant, backend=backend)
             return False
         n = op.changed if op.changed is not None else len(ref)
-        if not opcheck.vec_close(cart, ref, tol, scale, n):
+        if not opcheck.vec_equiv(sysr, stv, ref, tol, scale, n):
             ctx.fail("value" + q, f"{op.name} {variant} [{backend}]: result {opcheck.fmt(cart)} (stored {sysr} {opcheck.fmt(stv)}) != "
                      f"definition {opcheck.fmt(ref)}; a={opcheck.fmt(a)} b={opcheck.fmt(b) if b else None} scalars={s_in}",
                      op=op.name, variant=variant, backend=backend)
